@@ -76,8 +76,12 @@ def py_val(v, salt=0, allow_gen=True):
     return py_atom(v)
 
 
+SPECIAL_NAMES = {100: '__dict__', 101: '__class__', 102: '__doc__', 103: '__slots__', 104: '__weakref__'}
+
+
 def attr_name(i):
-    return ATTRS[i] if i < len(ATTRS) else 'zzz%d' % i
+    # indices beyond the attribute table are names no message has: made-up ones and the special names every Python object answers to
+    return ATTRS[i] if i < len(ATTRS) else SPECIAL_NAMES.get(i, 'zzz%d' % i)
 
 
 def enc_kw(kw):
@@ -251,6 +255,12 @@ def impl_hist(case):
         except Exception as e:  # noqa: BLE001
             raised = e
             out += canon_exn(e)
+        if 'type' not in vars(m):
+            # the object no longer is a message at all (its attribute dictionary was emptied or replaced)
+            out += [-8, -77, -9]
+            if fail is None:
+                fail = ('type-or-attrs-changed', '%r on %r left an object without a type: %r' % (op, before, vars(m)))
+            break
         after = state_of(m)
         out += [-8] + canon_obj(m) + [-9]
         if fail is None:
@@ -344,7 +354,7 @@ def random_value(rng, name):
 def random_op(rng, kind):
     own = list(canon.KINDS[kind][1]) + ['time']
     r = rng.random()
-    pick = lambda: ATTR_ID[rng.choice(own)] if rng.random() < 0.8 else rng.choice(list(range(14)) + [100, 101])
+    pick = lambda: ATTR_ID[rng.choice(own)] if rng.random() < 0.8 else rng.choice(list(range(14)) + [100, 101, 100, 102, 103, 104, 105])
     if r < 0.45:
         a = pick()
         return ('set', a, random_value(rng, attr_name(a)))
@@ -363,6 +373,40 @@ def random_op(rng, kind):
                 ovs.append((a, random_value(rng, attr_name(a))))
         return ('copy', ovs)
     return ('iadd', random_value(rng, 'data'))
+
+
+def type_argument(out):
+    """the type itself (implementation against the statement): only the name of a message type makes a message; a status byte, a number
+    equal to one, None, bytes ... as the type - through the constructor, from_dict, copy(type=) or assignment - must be rejected, and no
+    message may come out whose type is not the string it was built with"""
+    import mido
+    n = 0
+    bad_types = [0x90, 0x93, 0xf0, 0xf8, 144.0, 240.0, 0, 1, None, b'note_on', ('note_on',), ['note_on'], True, 'Note_On', 'note_on ', '', 'foo']
+    for t in bad_types:
+        for what, make in (('Message(%r)' % (t,), lambda: mido.Message(t)),
+                           ('Message(%r, note=60, velocity=1)' % (t,), lambda: mido.Message(t, note=60, velocity=1)),
+                           ('Message.from_dict(type=%r)' % (t,), lambda: mido.Message.from_dict({'type': t})),
+                           ('Message.from_dict(type=%r, data)' % (t,), lambda: mido.Message.from_dict({'type': t, 'data': [1, 2]})),
+                           ('copy(type=%r)' % (t,), lambda: mido.Message('note_on').copy(type=t))):
+            n += 1
+            try:
+                m = make()
+            except (ValueError, TypeError, AttributeError, LookupError):
+                continue
+            except Exception as e:  # noqa: BLE001
+                out.failures.append(('type-argument-raises:' + type(e).__name__, '%s raised %r' % (what, e), {'component': 'type-argument', 'what': what}))
+                continue
+            out.failures.append(('type-argument-accepted', '%s returned a message of type %r' % (what, vars(m).get('type')), {'component': 'type-argument', 'what': what}))
+        n += 1
+        m = mido.Message('note_on')
+        try:
+            m.type = t
+            out.failures.append(('type-assigned', 'assigning type = %r was accepted: %r' % (t, vars(m)), {'component': 'type-argument'}))
+        except (ValueError, TypeError, AttributeError):
+            if vars(m).get('type') != 'note_on':
+                out.failures.append(('type-assigned', 'a rejected assignment type = %r changed the message: %r' % (t, vars(m)), {'component': 'type-argument'}))
+    out.evaluations += n
+    out.components['type argument (implementation against the statement)'] = {'cases': n}
 
 
 def run(out):
@@ -418,6 +462,7 @@ def run(out):
     jobs += [('hist', hist_cases[i:i + step]) for i in range(0, len(hist_cases), step)]
     for tag, rec in core.pmap(job, jobs):
         core.merge_into(out, rec, tag)
+    type_argument(out)
     out.rule = ('constructor / from_dict / from_str with every attribute (own, foreign, unknown) of every type at min-1, min, min+1, mid, max-1, '
                 'max, max+1, +-2^63 and float, str, None, opaque object, bool, list/tuple/generator, bytes/bytearray values, plus random '
                 'keyword sets; histories of 1-30 operations (assignment, deletion, copy with overrides incl. type, data += ...) on one '
